@@ -2,13 +2,15 @@
 (* step st kind inputs = (st', expected observations).                                   *)
 (* Kinds flagged by is_monitor have inputs that are *observed* on the implementation and  *)
 (* a constant expected output: a mismatch there is a property violation on the real code. *)
-From VD Require Import Base.Words Model.Layout Model.Queue Extract.QueueIO Extract.QueueMon Extract.OwningIO Extract.MmioIO Model.PciBus Extract.PciBusIO.
+From VD Require Import Base.Words Model.Layout Model.Queue Extract.QueueIO Extract.QueueMon Extract.OwningIO Extract.MmioIO Model.PciBus Extract.PciBusIO Model.Blk Extract.BlkIO Model.Console Extract.ConsoleIO.
 
 Inductive mstate :=
 | MNone
 | MTag (n : N)
 | MQueue (q : qstate)
-| MOwning (q : option qstate).
+| MOwning (q : option qstate)
+| MBlk (b : option bstate)
+| MConsole (c : option cio).
 
 Definition bad : list N := [77777].
 
@@ -16,7 +18,7 @@ Definition bad : list N := [77777].
 Definition is_diag (k : N) : bool := (k =? 140).
 
 Definition is_monitor (k : N) : bool :=
-  (k =? 1) || (k =? 2) || (k =? 612) || ((150 <=? k) && (k <? 170)) || (k =? 1950) || (k =? 1951) || mmio_is_monitor k || pci_is_monitor k.
+  (k =? 1) || (k =? 2) || (k =? 612) || ((150 <=? k) && (k <? 170)) || (k =? 1950) || (k =? 1951) || mmio_is_monitor k || pci_is_monitor k || blk_is_monitor k || console_is_monitor k.
 
 Definition dir_reads (d : N) : bool := (d =? 0) || (d =? 2).
 Definition dir_writes (d : N) : bool := (d =? 1) || (d =? 2).
@@ -47,6 +49,15 @@ Definition step (st : mstate) (k : N) (ins : list N) : mstate * list N :=
     | _ => (st, bad) end
   else if (1000 <=? k) && (k <? 1100) then (st, mmio_step k ins)
   else if (1200 <=? k) && (k <? 1300) then (st, pci_step k ins)
+  (* ---- C14: block driver (kinds 1400..1499) ---- *)
+  else if (1400 <=? k) && (k <? 1500) then
+    (if blk_is_monitor k then (st, blk_monitor k ins) else
+     let b := match st with MBlk b => b | _ => None end in
+     let '(b', o) := blk_step b k ins in (MBlk b', o))
+  (* ---- C15: console (kinds 1500..1599) ---- *)
+  else if (1500 <=? k) && (k <? 1600) then
+    (let c := match st with MConsole c => c | _ => None end in
+     let '(c', o) := console_step c k ins in (MConsole c', o))
   else if k =? 1950 then (st, [b2n (mon_owning ins)])
   else if k =? 1951 then (st, [b2n (mon_input ins)])
   else if (1900 <=? k) && (k <? 1950) then
